@@ -3,6 +3,7 @@
 package sim
 
 import (
+	"math/big"
 	"encoding/json"
 	"fmt"
 	"sync"
@@ -294,6 +295,14 @@ func (s *Sim) Mint(ctx sdk.Context, addr sdk.AccAddress, coins sdk.Coins) error 
 
 // MintUnchecked credits addr even when it is a blocked module account (keeper-level send).
 func (s *Sim) MintUnchecked(ctx sdk.Context, addr sdk.AccAddress, coins sdk.Coins) error {
+	// x/bank panics when the supply would leave the 256-bit range: a harness deposit is then skipped
+	limit := new(big.Int).Lsh(big.NewInt(1), 256)
+	for _, c := range coins {
+		sup := s.App.BankKeeper.GetSupply(ctx, c.Denom).Amount.BigInt()
+		if new(big.Int).Add(sup, c.Amount.BigInt()).Cmp(limit) >= 0 {
+			return fmt.Errorf("supply of %s would overflow", c.Denom)
+		}
+	}
 	if err := s.App.BankKeeper.MintCoins(ctx, transfertypes.ModuleName, coins); err != nil {
 		return err
 	}
